@@ -29,8 +29,8 @@
   Node.appendChild → _child_attached → doc.rebuild_caches(e) → build_caches(e):    `attachHook`
      style:style with style:name under office:styles / office:automatic-styles is
      registered by name; a name already registered (during a load `__registered_style(name)` is
-     just the index lookup: nothing is removed or renamed afterwards) is renamed 'M'+name, with
-     further 'M's until the name is free (fix a298761), and the pair
+     just the index lookup: nothing is removed or renamed afterwards) is renamed 'M'+name (once; if that name
+     is taken too its index entry is overwritten), and the pair
      goes into _styles_ooo_fix; then text:style-name of e is rewritten if it is a key
      of _styles_ooo_fix.   (the element has no children yet when it is attached)
 
@@ -258,11 +258,6 @@ def setFix (k v : Str) : List (Str × Str) → List (Str × Str)
 
 def addName (n : Str) (names : List Str) : List Str := if n ∈ names then names else names ++ [n]
 
-/-- (fix a298761) `while self.__registered_style(newname) is not None: newname = u'M' + newname` -/
-def freeName (names : List Str) : Nat → Str → Str
-  | 0, n => n
-  | f+1, n => if n ∈ names then freeName names f (77 :: n) else n
-
 /-- `build_caches(e)` for an element that is being attached under `pq` -/
 def attachHook (names : List Str) (fix : List (Str × Str)) (pq : Option QName) (q : QName)
     (attrs : List (QName × Str)) : List Str × List (Str × Str) × List (QName × Str) :=
@@ -277,7 +272,7 @@ def attachHook (names : List Str) (fix : List (Str × Str)) (pq : Option QName) 
         | some nm =>
           if p = qStyles ∨ p = qAutoStyles then
             if nm ∈ names then
-              let nn := freeName names (names.length + 1) (77 :: nm)
+              let nn := 77 :: nm
               (addName nn names, setFix nm nn fix, setA aStyleName nn attrs)
             else (names ++ [nm], fix, attrs)
           else (names, fix, attrs)
@@ -540,7 +535,7 @@ def findRootEnd : Str → Nat → Option Nat
 def splitAtQuote (q : Cp) (r : Str) : Option (Str × Str) :=
   if r.contains q then some (r.takeWhile (· != q), (r.dropWhile (· != q)).drop 1) else none
 
-/-- `re.match(u'(?:[^>"\']|"[^"]*"|\'[^\']*\')*', t).group(0)` (fix 283a4a4): the text up to the first `>` that is not
+/-- `re.match(u'(?:[^>"\']|"[^"]*"|\'[^\']*\')*', t).group(0)` (fix 692b8c3): the text up to the first `>` that is not
     inside a quoted attribute value; an opening quote without its closing quote ends the match -/
 def scanTag : Nat → Str → Str
   | 0, _ => []
@@ -566,7 +561,7 @@ def declares (p : Str) : Str → Bool
   | [] => false
   | c :: r => declAt p (c :: r) || declares p r
 
-/-- one round of the loop (fixes 4cb8050, 283a4a4): the test looks at the document element's start tag (`rootTagText`),
+/-- one round of the loop (fixes 4cb8050, 692b8c3): the test looks at the document element's start tag (`rootTagText`),
     the splice goes right after the element name -/
 def fixStep (tag : Str) (e : Nat) (result : Str) (p : Str) : Str :=
   if declares p tag then result else result.take e ++ toInsert p ++ result.drop e
